@@ -281,7 +281,8 @@ def run_case(case):
   r = d.apply([['AddTable', TABLE, [{'id': 'A', 'type': 'Text', 'isFormula': False},
                                     {'id': 'B', 'type': 'Int', 'isFormula': False}]]])
   if not r.ok:
-    raise RuntimeError('setup failed: %r' % (r.error,))
+    # AddTable on a new document only adds metadata records with automatic ids: a valid request by the statement
+    return out.fail('C27:valid-request-rejected', 'AddTable on a new document (automatic metadata row ids) raised %r' % (r.error,))
   skip = len(d.log)
   if 'concrete' in case:
     plan = [('ua', ua) for ua in case['concrete']]
